@@ -40,7 +40,9 @@ static cJSON *vf_stub_duplicate(const cJSON *item, cJSON_bool recurse)
 #ifndef VF_LIB
 #define VF_LIB "cJSON_Utils.c"
 #endif
+#include "vf_trap.h"
 #include VF_LIB
+#include "vf_untrap.h"
 #undef cJSON_Duplicate
 
 static cJSON root, scalar, P; static int pkx; static unsigned gp_calls; static cJSON *gp_ret[4]; static cJSON *kidp[KN]; static unsigned char kkey[KN]; static unsigned n;
@@ -244,7 +246,7 @@ int main(VF_MAIN_ARGS)
             long want = 0; cnt = 0;
             for (c = P.child; c != 0 && cnt <= KN + 1; c = c->next, cnt++) { want += 1; if (c->string) want += 1; }
             cnt = 0; for (c = root.child; c != 0 && cnt <= KN + 1; c = c->next, cnt++) { want += 1; if (c->string) want += 1; }      /* members the operation put directly into the root */
-            if (!(pathbuf[0] == 0 && has_path && has_op)) VF_AP(16, vf_live == want, "C16 no leak and no double release for any patch value (live blocks == blocks owned by the document)");
+            if (!(pathbuf[0] == 0 && has_path && has_op)) { VF_AP(16, vf_live == want, "C16 no leak and no double release for any patch value (live blocks == blocks owned by the document)"); VF_AP(14, vf_live == want, "C14 every block the patch code releases through the hooks was obtained through the hooks (ledger balanced)"); }
         }
     }
     VF_WITNESS("end");
